@@ -368,9 +368,10 @@ impl MqttState {
                 "PubAck Pkid = {:?}, reason: {:?}",
                 puback.pkid, puback.reason
             );
-            return Ok(None);
         }
 
+        // whatever the reason code, the id is free again: a publish parked on it
+        // can go out now
         if let Some(publish) = self.check_collision(puback.pkid) {
             self.outgoing_pub[publish.pkid as usize] = Some(publish.clone());
             self.inflight += 1;
@@ -404,6 +405,19 @@ impl MqttState {
                 "PubRec Pkid = {:?}, reason: {:?}",
                 pubrec.pkid, pubrec.reason
             );
+            // the flow ends here (no PUBREL follows): the window slot and the id
+            // are free again, a publish parked on the id can go out now
+            self.inflight -= 1;
+            if let Some(publish) = self.check_collision(pubrec.pkid) {
+                self.outgoing_pub[publish.pkid as usize] = Some(publish.clone());
+                self.inflight += 1;
+
+                let event = Event::Outgoing(Outgoing::Publish(publish.pkid));
+                self.events.push_back(event);
+                self.collision_ping_count = 0;
+
+                return Ok(Some(Packet::Publish(publish)));
+            }
             return Ok(None);
         }
 
@@ -448,9 +462,9 @@ impl MqttState {
                 "PubComp Pkid = {:?}, reason: {:?}",
                 pubcomp.pkid, pubcomp.reason
             );
-            return Ok(None);
         }
 
+        // whatever the reason code, the flow is over
         self.inflight -= 1;
 
         // the id is free again: a publish parked on it goes on the wire now and is
